@@ -7,6 +7,7 @@ repository code never sees a symbolic boolean.  See /verif/DESIGN.md section 2.1
 """
 from __future__ import annotations
 
+import os
 import time
 import builtins
 import z3
@@ -1267,6 +1268,9 @@ class Env:
             r = s3.check()
             self._model_src = s3
             eng.queries += 1
+        eng.solver_vcs += 1
+        if r != z3.unknown and eng.xcheck_every and eng.solver_vcs % eng.xcheck_every == 1 % eng.xcheck_every:
+            self._xcheck(label, cond, "unsat" if r == z3.unsat else "sat")
         if r == z3.unsat:
             self.claims.append((label, "ok", None))
             return True
@@ -1276,6 +1280,48 @@ class Env:
             return False
         self.claims.append((label, "unknown", self.solver.reason_unknown()))
         return False
+
+    def _xcheck(self, label, cond, verdict):
+        """Second solver: the VC (path condition and negated claim) is exported as SMT-LIB2 and
+        re-decided by the cvc5 binary. Agreement / no answer within the limit are counted; a
+        different answer or an `(error` line is a harness problem (never a pass)."""
+        import subprocess
+        import tempfile
+
+        eng = self.engine
+        st = eng.xstats
+        s2 = z3.Solver()
+        for a_ in self.solver.assertions():
+            s2.add(a_)
+        s2.add(z3.Not(cond))
+        txt = "(set-logic ALL)\n" + s2.to_smt2()
+        fd, path = tempfile.mkstemp(suffix=".smt2", prefix="symx-vc-")
+        t0 = time.perf_counter()
+        try:
+            with os.fdopen(fd, "w") as fh:
+                fh.write(txt)
+            try:
+                p = subprocess.run([eng.xcheck_bin, "--tlimit=%d" % eng.xcheck_ms, path], capture_output=True, text=True, timeout=eng.xcheck_ms / 1000 + 20)
+                out = (p.stdout or "") + (p.stderr or "")
+            except (OSError, subprocess.TimeoutExpired) as ex:
+                out = "timeout-or-missing: %r" % (ex,)
+        finally:
+            try:
+                os.unlink(path)
+            except OSError:
+                pass
+        st["time_s"] += time.perf_counter() - t0
+        st["submitted"] += 1
+        first = out.strip().splitlines()[0].strip() if out.strip() else ""
+        if "(error" in out:
+            st["errors"].append("%s: %s" % (label, out.strip()[:300]))
+        elif first in ("sat", "unsat"):
+            if first == verdict:
+                st["agree"] += 1
+            else:
+                st["disagree"].append("%s: z3 %s, cvc5 %s" % (label, verdict, first))
+        else:
+            st["no_answer"] += 1
 
     def claim_eq(self, label: str, a, b, info=None):
         from .compare import sym_eq
@@ -1441,6 +1487,12 @@ class Engine:
         self.queries = 0
         self.vcs = 0
         self.paths = 0
+        # second-solver re-decision of every k-th VC (0 = off)
+        self.xcheck_every = 0
+        self.solver_vcs = 0
+        self.xcheck_ms = 5000
+        self.xcheck_bin = "cvc5"
+        self.xstats = {"submitted": 0, "agree": 0, "no_answer": 0, "disagree": [], "errors": [], "time_s": 0.0}
 
     def push_alternative(self, prefix):
         self.queue.append(prefix)
